@@ -191,7 +191,7 @@ var (
 	rePaths   = regexp.MustCompile(`(file://)?/var/tmp/[^\s:'"#]+`)
 	reIDs     = regexp.MustCompile(`s[0-9]{4}[a-z]+`)
 	reYAMLErr = regexp.MustCompile(`, yaml error:.*$`)
-	rePkgTag  = regexp.MustCompile(`^(\w+: )?\[[pq]\] `)
+	rePkgTag  = regexp.MustCompile(`^(\w+: )?\[[pqr]\] `)
 )
 
 var (
